@@ -1,6 +1,7 @@
 SPECIFICATION Spec
 CONSTANTS
   Scen = "response"
+  MaxChunks = 3
   Gen = TRUE
   EmptyIsFlush = FALSE
 INVARIANT ConsumerExact
